@@ -34,7 +34,7 @@ use crate::report::{Acc, Check, Tier};
 use crate::util::{self, guard, Guard};
 use crate::world;
 
-pub const SWEEPS: [&str; 7] = ["short-bytes", "fixture-corruption", "json-node-mutation", "adversarial-rules", "adversarial-verify", "adversarial-entries", "unwritable-stdio"];
+pub const SWEEPS: [&str; 8] = ["short-bytes", "fixture-corruption", "json-node-mutation", "adversarial-rules", "adversarial-verify", "adversarial-entries", "unwritable-stdio", "inspection-commands"];
 
 // --------------------------------------------------------------- decoders
 
@@ -900,6 +900,73 @@ fn sweep_unwritable_stdio(cx: &mut Ctx) {
     }
 }
 
+/// Verification that gets as far as the inspections: the step is satisfied by a genuine link,
+/// and the layout's inspection has an unusual but representable command - nothing to run, an
+/// executable that does not exist or is a directory, a command that fails, is killed, prints bytes
+/// that are not UTF-8 or a lot of them, or leaves oddly named entries in the working directory
+/// (what unpacking an attacker-made product archive does). The verdict is free; a crash is not.
+fn sweep_inspection_commands(cx: &mut Ctx, dir: &Path) {
+    let owner = keys::get("ed6");
+    let a = keys::get("ed1");
+    let linkdir = dir.join("insp-links");
+    std::fs::create_dir_all(&linkdir).unwrap();
+    world::write(&linkdir, &world::link_file("s", a), &world::block_text(&world::sign_link(world::link("s", world::arts(&[]), world::arts(&[("p", 2)])), &[a])));
+    let sh = |script: &str| vec!["sh".to_string(), "-c".to_string(), script.to_string()];
+    let runs: Vec<(&str, Vec<String>)> = vec![
+        ("nothing to run", vec![]),
+        ("empty executable name", vec![String::new()]),
+        ("executable does not exist", vec!["/nonexistent/cmd".to_string()]),
+        ("executable is a directory", vec!["/".to_string()]),
+        ("argument with a NUL", vec!["true".to_string(), "a\0b".to_string()]),
+        ("exit 3", sh("exit 3")),
+        ("exit 255", sh("exit 255")),
+        ("killed by a signal", sh("kill -9 $$")),
+        ("stdout not UTF-8", sh("printf '\\377\\376'")),
+        ("stderr not UTF-8", sh("printf '\\377' >&2")),
+        ("300 kB of output", sh("head -c 300000 /dev/zero | tr '\\0' x")),
+        ("leaves a file whose name is not UTF-8", sh("touch \"$(printf 'caf\\351')\"")),
+        ("leaves files named like patterns", sh("touch '*' '[' '?' ' ' 'a\nb'")),
+        ("leaves a dangling symlink", sh("ln -s /nonexistent dangling")),
+        ("leaves a symlink to the working directory", sh("ln -s . loop")),
+        ("leaves a directory whose name is not UTF-8", sh("mkdir \"$(printf 'd\\377')\" && touch \"$(printf 'd\\377')/f\"")),
+        ("removes the working directory", sh("rm -rf \"$PWD\"")),
+    ];
+    let rule_sets: Vec<(&str, Vec<ArtifactRule>)> = vec![("no rules", vec![]), ("ALLOW *.link, DISALLOW *", vec![ArtifactRule::Allow("*.link".into()), ArtifactRule::Disallow("*".into())]), ("MATCH * WITH PRODUCTS FROM s", vec![ArtifactRule::Match { pattern: "*".into(), in_src: None, with: Artifact::Products, in_dst: None, from: "s".into() }])];
+    for (rname, run) in &runs {
+        for (rsname, rules) in &rule_sets {
+            for second in [false, true] {
+                let mut insp = Inspection::new("i").run(run.clone().into());
+                for r in rules {
+                    insp = insp.add_expected_product(r.clone()).add_expected_material(r.clone());
+                }
+                let mut inspections = vec![insp];
+                if second {
+                    inspections.push(Inspection::new("after").run(vec!["true".to_string()].into()));
+                }
+                let Guard::Done(block) = guard(|| world::sign_layout(world::layout(vec![world::step("s", 1, &[a])], inspections.clone(), &[a], world::far_future()), &[owner])) else { continue };
+                let cwd = dir.join("insp-cwd");
+                let linkdir = linkdir.clone();
+                let (rn, rsn) = (rname.to_string(), rsname.to_string());
+                cx.case_reporting(
+                    "in_toto_verify(unusual inspection command)",
+                    move || {
+                        let _ = std::fs::remove_dir_all(&cwd);
+                        std::fs::create_dir_all(&cwd).unwrap();
+                        std::env::set_current_dir(&cwd).unwrap();
+                        let mut panics = vec![];
+                        if let world::Verdict::Panic(l, m) = world::verify(&block, world::owner_map(&[owner]), &linkdir) {
+                            panics.push((l, m));
+                        }
+                        let _ = std::env::set_current_dir("/");
+                        panics
+                    },
+                    move || json!({"sweep": "inspection-commands", "run": rn, "rules": rsn, "second_inspection": second}),
+                );
+            }
+        }
+    }
+}
+
 // ---------------------------------------------------- shard entry (child)
 
 pub fn shard_main(args: &[String]) -> ! {
@@ -930,6 +997,7 @@ pub fn shard_main(args: &[String]) -> ! {
             "adversarial-verify" => sweep_adversarial_verify(&mut cx, &dir),
             "adversarial-entries" => sweep_adversarial_entries(&mut cx, &dir),
             "unwritable-stdio" => sweep_unwritable_stdio(&mut cx),
+            "inspection-commands" => sweep_inspection_commands(&mut cx, &dir),
             _ => {}
         }
         let total = cx.idx;
@@ -976,7 +1044,7 @@ pub fn run(tier: Tier) -> i32 {
     let mut acc = Acc::new();
     let n_threads = util::n_threads() as u64;
     for sweep in SWEEPS {
-        let n = if sweep == "adversarial-verify" || sweep == "adversarial-entries" { n_threads.min(8) } else { n_threads };
+        let n = if sweep == "adversarial-verify" || sweep == "adversarial-entries" || sweep == "inspection-commands" { n_threads.min(8) } else { n_threads };
         let mut shards: Vec<Shard> = (0..n)
             .map(|s| Shard { sweep, shard: s, start: 0, child: spawn(sweep, s, n, 0, &outdir, thorough), last_progress: String::new(), last_change: Instant::now(), deaths: 0 })
             .collect();
@@ -1050,7 +1118,7 @@ pub fn run(tier: Tier) -> i32 {
     acc.sample(|| json!({"sweep": "adversarial-verify", "layout": "step \"[\" threshold 4294967295", "link_file": "keyid with a multi-byte character across byte 8"}));
     c.acc = acc;
     c.rule = format!(
-        "sweeps: (1) every byte string of length <= {} over {{ }} [ ] \" : , 0 - a \\ 0xff into each of {} entry points; (2) every truncation and, at every {}offset, delete / 0x00 / 0x80 / 0xff / low-bit flip / insert 0x30, and every decimal number replaced by 11 boundary spellings, of {} fixtures into the matching entry points; (3) every node of every JSON fixture replaced by each of {} values, deleted, duplicated; (4) hostile artifact paths x hostile patterns x all rule kinds through the rule engine; (5) hostile layouts x hostile link files through in_toto_verify in a private cwd; (7) every decoder on its fixtures while standard output and standard error point at /dev/full; (6) link-directory entries that are not regular UTF-8 files (0xff bytes, BOM, UTF-16, 1 MiB of brackets, a directory / dangling / self-referential symlink / unreadable file named like a link file), delegation trees that are self-similar (sub-directory symlinked to its parent; 8 / 64 / 300 real levels) or hostile below the first level, and record_artifact / record_artifacts on paths that name no readable file (the builder methods add_material / add_product take an operator-chosen path, return no Result and are outside this property). Each case also exercises the follow-up calls (verify, prefix, to_bytes, sign). distinct_nontrivial = cases run (each is a distinct input)",
+        "sweeps: (1) every byte string of length <= {} over {{ }} [ ] \" : , 0 - a \\ 0xff into each of {} entry points; (2) every truncation and, at every {}offset, delete / 0x00 / 0x80 / 0xff / low-bit flip / insert 0x30, and every decimal number replaced by 11 boundary spellings, of {} fixtures into the matching entry points; (3) every node of every JSON fixture replaced by each of {} values, deleted, duplicated; (4) hostile artifact paths x hostile patterns x all rule kinds through the rule engine; (5) hostile layouts x hostile link files through in_toto_verify in a private cwd; (7) every decoder on its fixtures while standard output and standard error point at /dev/full; (6) link-directory entries that are not regular UTF-8 files (0xff bytes, BOM, UTF-16, 1 MiB of brackets, a directory / dangling / self-referential symlink / unreadable file named like a link file), delegation trees that are self-similar (sub-directory symlinked to its parent; 8 / 64 / 300 real levels) or hostile below the first level, and record_artifact / record_artifacts on paths that name no readable file (the builder methods add_material / add_product take an operator-chosen path, return no Result and are outside this property). (8) a satisfied step followed by an inspection whose command is unusual (nothing to run, no such executable, a directory, NUL in an argument, exit 3 / 255, killed by a signal, output that is not UTF-8 or is large, entries left in the working directory whose names are not UTF-8 / look like patterns / are dangling or circular symlinks, the working directory removed) x 3 rule sets x with / without a second inspection. Each case also exercises the follow-up calls (verify, prefix, to_bytes, sign). distinct_nontrivial = cases run (each is a distinct input)",
         if thorough { 4 } else { 3 },
         decoders().len(),
         if thorough { "" } else { "(strided) " },
